@@ -136,7 +136,7 @@ Definition run_case (c : value) : value :=
         match args with [target; base] => diff_doc target base | _ => bad_case end
       else if String.eqb opn "history" then
         match args with
-        | [t; VList ops] =>
+        | t :: VList ops :: _ =>          (* further arguments are notes of the generator *)
             match dec_ops ops with
             | Some os => VList (map enc_out (snd (run (oracles_of t) init os)))
             | None => bad_case
